@@ -387,6 +387,13 @@ impl BoundsAnalyzer {
             let Some(bounds) = self.variable_bounds.get(name).copied() else {
                 continue;
             };
+            if bounds.lower == f64::INFINITY || bounds.upper == f64::NEG_INFINITY {
+                // Propagation over contradictory constraints can run away to
+                // an infinite bound on the wrong side, which is no domain at
+                // all. Keep the declared domain: the original constraint rows
+                // report the infeasibility at solve time.
+                continue;
+            }
             let tightened_type = match variable.get_type() {
                 VariableType::Boolean => VariableType::Boolean,
                 VariableType::IntegerRange(_, _) => {
